@@ -1,3 +1,407 @@
-/- C03: property theorems (stub — not built yet) -/
+import RSVerif.Lemmas.Resume
+import RSVerif.Lemmas.Routing
+import RSVerif.Lemmas.ParseWF
+import RSVerif.Drive.C03
+/-
+C03 — Incremental sync forwards the filtered command stream in order, exactly once.
+Property theorems only (helper lemmas live in RSVerif.Lemmas.*). Sender part.
+-/
 namespace RSVerif.Properties.C03
+open RSVerif RSVerif.Sync RSVerif.Sender RSVerif.Spec.IncrSync RSVerif.Spec.MiniRedis
+open RSVerif.Lemmas.Sender RSVerif.Lemmas.SenderRedis RSVerif.Lemmas.Resume
+open RSVerif.IncrParse RSVerif.Lemmas.IncrParse RSVerif.Lemmas.Routing RSVerif.Lemmas.ParseWF
+
+/-! ### 0. the barrier table of the source is the one the model was written against -/
+
+theorem barrier_table :
+    barrierLookup "select" = some .add ∧ barrierLookup "multi" = some .holdStart ∧
+    barrierLookup "exec" = some .holdEnd ∧
+    ∀ c, c ≠ "select" → c ≠ "multi" → c ≠ "exec" → barrierLookup c = none :=
+  ⟨lookup_select, lookup_multi, lookup_exec, lookup_other⟩
+
+/-- the lookup is case-sensitive: the `SELECT` injected for `target.db` is not a barrier -/
+theorem upper_select_no_barrier : barrierLookup "SELECT" = none := by decide
+
+theorem ticker_period : Generated.SyncConsts.tickerPeriodMs = 500 := by decide
+
+/-! ### 1. exactly once, in order, under any batching -/
+
+/-- For every sequence of loop events (arrivals and ticks in any interleaving, any thresholds, resume on or
+off): what has been written to the target followed by what is still cached is exactly the received
+stream without the source's MULTI/EXEC markers — nothing lost, duplicated or reordered. -/
+theorem exactly_once_in_order (cfg : Cfg) (evs : List Ev) (hwf : WF (received evs)) :
+    wireData (run cfg S.init evs).2 ++ (run cfg S.init evs).1.cache =
+      (received evs).filter (fun it => !marker it) := by
+  have := (runG_facts cfg evs S.init inv_init hwf).items
+  rw [run_eq, wireData_wireOf]
+  simpa [S.init] using this
+
+/-- source-side MULTI/EXEC never reach the target -/
+theorem markers_never_sent (cfg : Cfg) (evs : List Ev) (hwf : WF (received evs)) :
+    ∀ it ∈ wireData (run cfg S.init evs).2, it.cmd ≠ "multi" ∧ it.cmd ≠ "exec" := by
+  intro it hit
+  have h : it ∈ (received evs).filter (fun it => !marker it) := by
+    rw [← exactly_once_in_order cfg evs hwf]; exact List.mem_append_left _ hit
+  have := (List.mem_filter.mp h).2
+  simpa [marker] using this
+
+/-- the strict form (what a master emits) implies the hypothesis used above -/
+theorem wfStrict_wf (items : List Item) (h : WFstrict items) : WF items := by
+  unfold WFstrict at h; unfold WF
+  generalize false = t at h ⊢
+  induction items generalizing t with
+  | nil => rfl
+  | cons it l ih =>
+    rw [strictFrom] at h; rw [wfFrom]
+    by_cases c1 : it.cmd = "multi"
+    · simp only [c1, if_true, Bool.and_eq_true] at h ⊢; exact ⟨h.1, ih _ h.2⟩
+    · by_cases c2 : it.cmd = "exec"
+      · have e : ¬ ("exec" = "multi") := by decide
+        simp only [c2, e, if_true, if_false, Bool.and_eq_true] at h ⊢
+        exact ih _ h.2
+      · by_cases c3 : it.cmd = "select"
+        · have e1 : ¬ ("select" = "multi") := by decide
+          have e2 : ¬ ("select" = "exec") := by decide
+          simp only [c3, e1, e2, if_true, if_false, Bool.and_eq_true] at h ⊢; exact ⟨h.1, ih _ h.2⟩
+        · simp only [c1, c2, c3, if_false] at h ⊢; exact ih _ h
+
+private def mk (c : String) (o : Int) : Item := { cmd := c, args := [], off := o, db := 0 }
+
+/-- non-vacuity: a stream with a select, a transaction and a ping is well-formed -/
+example : WFstrict [mk "select" 1, mk "set" 2, mk "multi" 3, mk "incr" 4, mk "exec" 5, mk "ping" 6] := by decide
+
+/-- The hypothesis is needed: with a nested MULTI the automaton forwards the second MULTI
+(status `holding` caches everything but `exec`). -/
+theorem counterexample_nested_multi :
+    let evs := [Ev.recv (mk "multi" 1), .recv (mk "multi" 2), .recv (mk "set" 3), .recv (mk "exec" 4)]
+    ¬ WF (received evs) ∧
+    (wireData (run ⟨false, 10, 1000⟩ S.init evs).2).map (·.cmd) = ["multi", "set"] := by
+  decide
+
+/-! ### 2. bounded delay -/
+
+/-- a tick that finds the queue empty leaves nothing cached -/
+theorem idle_flush (cfg : Cfg) (s : S) : (step cfg s (.tick true)).1.cache = [] := by
+  have hs : ∀ s : S, (sendFunc cfg s).1.cache = [] := by
+    intro s
+    unfold sendFunc
+    cases hl : s.cache.getLast? with
+    | none => simpa using hl
+    | some last => rfl
+  show (stepG cfg s (.tick true)).1.cache = []
+  simp only [stepG]
+  split
+  · rename_i h
+    simp only [Bool.true_and, Bool.and_eq_true, Bool.not_eq_true', Bool.not_eq_false'] at h
+    simpa using h.2
+  · exact hs s
+
+/-- every received command is on the wire no later than the first tick that finds the queue empty:
+with the ticker trusted, at most two ticker periods (1 s) after the stream goes idle -/
+theorem idle_flush_complete (cfg : Cfg) (evs : List Ev) (hwf : WF (received evs)) :
+    (run cfg S.init (evs ++ [.tick true])).1.cache = [] ∧
+    wireData (run cfg S.init (evs ++ [.tick true])).2 = (received evs).filter (fun it => !marker it) := by
+  have hc : (run cfg S.init (evs ++ [.tick true])).1.cache = [] := by
+    rw [run_append]
+    have := idle_flush cfg (run cfg S.init evs).1
+    simpa [run_eq, runG, step] using this
+  refine ⟨hc, ?_⟩
+  have hr : received (evs ++ [Ev.tick true]) = received evs := by simp [received_append, received]
+  have := exactly_once_in_order cfg (evs ++ [.tick true]) (by rw [hr]; exact hwf)
+  rw [hc, hr, List.append_nil] at this
+  exact this
+
+/-! ### 3. barriers -/
+
+/-- In every reachable state, a `select`, `multi` or `exec` first flushes everything cached — as one group —
+and only then is (for `select`) cached itself: it always starts a new batch. -/
+theorem barrier_forces_boundary (cfg : Cfg) (evs : List Ev) (it : Item)
+    (hwf : WF (received evs ++ [it])) (hb : it.cmd = "select" ∨ it.cmd = "multi" ∨ it.cmd = "exec") :
+    let s := (runG cfg S.init evs).1
+    (∀ x ∈ (stepG cfg s (.recv it)).1.cache, x = it) ∧
+    (s.cache ≠ [] → ∃ g rest, (stepG cfg s (.recv it)).2 = g :: rest ∧ g.items = s.cache) := by
+  intro s
+  obtain ⟨hi, hw⟩ := runG_wf_tail cfg evs [it] S.init inv_init hwf
+  rw [wfFrom_cons] at hw
+  simp only [Bool.and_eq_true] at hw
+  exact barrier_step cfg s it ((barrierStatus_spec it.cmd s.bs hw.1).2.2 hb)
+
+/-- consequently a `select` can only be the first command of a group -/
+theorem select_only_first (cfg : Cfg) (evs : List Ev) (hwf : WF (received evs)) :
+    ∀ g ∈ (runG cfg S.init evs).2, ∀ x ∈ g.items.tail, x.cmd ≠ "select" :=
+  (runG_facts cfg evs S.init inv_init hwf).heads
+
+
+/-! ### 4. the parser: what is forwarded, with which arguments and tag -/
+
+/-- (command, arguments, offset tag) of an item -/
+abbrev triple : Item → String × List Bytes × Int := fun it => (it.cmd, it.args, it.off)
+
+/-- For every valid source stream (names lower-cased by `ParseArgs`, no aborting command), every filter
+configuration, start database and base offset: the items that are not SELECTs are exactly the commands that
+survive the filters (database filter tracked through every SELECT, command filter, sentinel hello, key filter),
+each once, in source order, with the arguments the key filter returns and the tag `base + pos`. -/
+theorem parser_forwards_survivors (pcfg : PCfg) (hk : SelectNeutral pcfg) (startDb base : Int)
+    (cmds : List SrcCmd) (hn : Normalized cmds) (hvalid : (parseFull pcfg startDb base cmds).2 = false) :
+    ((parse pcfg startDb base cmds).filter (fun it => !isSel it)).map triple =
+      (survivors pcfg false cmds).map (fun c => (c.cmd, (pcfg.keyFilter c.cmd c.args).1, base + c.pos)) := by
+  have hst : (startItems startDb base).filter (fun it => !isSel it) = [] := by
+    unfold startItems; split <;> simp [isSel]
+  have := ploop_survivors pcfg base hk cmds hn PState.init (by simpa [parseFull_eq] using hvalid)
+  simpa [parse, parseFull_eq, List.filter_append, hst, triple, PState.init] using this
+
+/-- a filtered command is never put on the queue: every non-SELECT item stems from a survivor -/
+theorem filtered_never_sent (pcfg : PCfg) (hk : SelectNeutral pcfg) (startDb base : Int)
+    (cmds : List SrcCmd) (hn : Normalized cmds) (hvalid : (parseFull pcfg startDb base cmds).2 = false) :
+    ∀ it ∈ parse pcfg startDb base cmds, isSel it = false →
+      ∃ c ∈ survivors pcfg false cmds,
+        it.cmd = c.cmd ∧ it.args = (pcfg.keyFilter c.cmd c.args).1 ∧ it.off = base + c.pos := by
+  intro it hit hns
+  have hmem : triple it ∈ ((parse pcfg startDb base cmds).filter (fun it => !isSel it)).map triple :=
+    List.mem_map.mpr ⟨it, List.mem_filter.mpr ⟨hit, by simp [hns]⟩, rfl⟩
+  rw [parser_forwards_survivors pcfg hk startDb base cmds hn hvalid] at hmem
+  obtain ⟨c, hc, heq⟩ := List.mem_map.mp hmem
+  simp only [triple, Prod.mk.injEq] at heq
+  exact ⟨c, hc, heq.1.symm, heq.2.1.symm, heq.2.2.symm⟩
+
+/-- a surviving command is always put on the queue -/
+theorem passing_always_sent (pcfg : PCfg) (hk : SelectNeutral pcfg) (startDb base : Int)
+    (cmds : List SrcCmd) (hn : Normalized cmds) (hvalid : (parseFull pcfg startDb base cmds).2 = false) :
+    ∀ c ∈ survivors pcfg false cmds, ∃ it ∈ parse pcfg startDb base cmds,
+      isSel it = false ∧ it.cmd = c.cmd ∧ it.args = (pcfg.keyFilter c.cmd c.args).1 ∧ it.off = base + c.pos := by
+  intro c hc
+  have hmem : (c.cmd, (pcfg.keyFilter c.cmd c.args).1, base + c.pos) ∈
+      (survivors pcfg false cmds).map (fun c => (c.cmd, (pcfg.keyFilter c.cmd c.args).1, base + c.pos)) :=
+    List.mem_map.mpr ⟨c, hc, rfl⟩
+  rw [← parser_forwards_survivors pcfg hk startDb base cmds hn hvalid] at hmem
+  obtain ⟨it, hit, heq⟩ := List.mem_map.mp hmem
+  obtain ⟨h1, h2⟩ := List.mem_filter.mp hit
+  simp only [triple, Prod.mk.injEq] at heq
+  exact ⟨it, h1, by simpa using h2, heq.1, heq.2.1, heq.2.2⟩
+
+/-- without a key filter the forwarded arguments are the source's, byte for byte -/
+theorem args_identical (pcfg : PCfg) (hkf : pcfg.keyFilter = fun _ a => (a, false)) (startDb base : Int)
+    (cmds : List SrcCmd) (hn : Normalized cmds) (hvalid : (parseFull pcfg startDb base cmds).2 = false) :
+    ((parse pcfg startDb base cmds).filter (fun it => !isSel it)).map (fun it => (it.cmd, it.args)) =
+      (survivors pcfg false cmds).map (fun c => (c.cmd, c.args)) := by
+  have hk : SelectNeutral pcfg := by intro a; rw [hkf]
+  have := congrArg (List.map (fun (t : String × List Bytes × Int) => (t.1, t.2.1)))
+    (parser_forwards_survivors pcfg hk startDb base cmds hn hvalid)
+  simpa [triple, hkf, List.map_map, Function.comp_def] using this
+
+/-- and the sender forwards an item's command and arguments untouched -/
+theorem wire_args_identical (rc : RenderCfg) (l : List Item) :
+    renderWire rc (l.map Wire.fwd) = l.map (fun it => (it.cmd, it.args)) := renderWire_fwd rc l
+
+/-! ### 5. database routing, end to end: parser → sender (any batching) → MiniRedis -/
+
+section
+variable {D : Type} (apply : Int → Cmd → D → D) (rc : RenderCfg)
+
+/-- the common part: a flushed run executes, plainly and in order, the non-marker items of the parser -/
+theorem pipeline_core (scfg : Cfg) (pcfg : PCfg) (startDb base : Int) (cmds : List SrcCmd) (evs : List Ev)
+    (hrecv : received evs = parse pcfg startDb base cmds) (hwf : WF (received evs))
+    (hpl : ∀ it ∈ nonMarkers (received evs), plainItem rc.ckName it = true)
+    (hflush : (run scfg S.init evs).1.cache = []) (s0 : St D) (hq : s0.q = none) (hdb : s0.db = 0) :
+    (replay rc.ckName apply s0 (renderWire rc (run scfg S.init evs).2)).data =
+      (runItems apply rc.ckName (s0.data, startDb) (ploop pcfg base PState.init cmds).1).1 := by
+  have h := (flushed_run_core apply rc scfg evs hwf s0 hq hpl hflush).1
+  have hc : core s0 = (s0.data, 0) := by simp [core, hdb]
+  rw [hrecv, hc] at h
+  have : (replay rc.ckName apply s0 (renderWire rc (run scfg S.init evs).2)).data =
+      (runItems apply rc.ckName (s0.data, 0) (parse pcfg startDb base cmds)).1 := by
+    have := congrArg Prod.fst h; simpa [core, runItems] using this
+  rw [this, parse, parseFull_eq, runItems_append, run_startItems]
+
+/-- **db_routing** (no `target.db`): for every valid source stream, filter configuration, start database,
+thresholds and interleaving of arrivals and ticks that ends flushed, the dataset of the target is the one
+obtained by running every surviving data command once, in source order, in the database that was selected on the
+source when it was issued. -/
+theorem db_routing (scfg : Cfg) (pcfg : PCfg) (htdb : pcfg.targetDB = -1) (hk : SelectNeutral pcfg)
+    (startDb base : Int) (cmds : List SrcCmd) (hn : Normalized cmds)
+    (hvalid : (parseFull pcfg startDb base cmds).2 = false) (evs : List Ev)
+    (hrecv : received evs = parse pcfg startDb base cmds) (hwf : WF (received evs))
+    (hpl : ∀ it ∈ nonMarkers (received evs), plainItem rc.ckName it = true)
+    (hflush : (run scfg S.init evs).1.cache = []) (s0 : St D) (hq : s0.q = none) (hdb : s0.db = 0) :
+    (replay rc.ckName apply s0 (renderWire rc (run scfg S.init evs).2)).data =
+      (intended pcfg startDb false cmds).foldl (execIn rc.ckName apply) s0.data := by
+  rw [pipeline_core apply rc scfg pcfg startDb base cmds evs hrecv hwf hpl hflush s0 hq hdb]
+  exact route_plain apply rc.ckName pcfg htdb hk base cmds hn PState.init
+    (by simpa [parseFull_eq] using hvalid) s0.data startDb startDb (fun _ => rfl)
+
+/-- **db_routing_partial** (`target.db = k`): the same with every surviving data command running in `k`, provided
+no command can be forwarded before the connection has reached `k` (`routeSafe`: resumed in `k`, or the stream begins
+with a SELECT — and, on the pinned tree, the first non-filtered SELECT does not select `k` itself, deviation D8).
+Full statement (false on the pinned tree, see `counterexample_targetdb_equal`; true with the repair, see
+`db_routing_fixed`): the same conclusion from `startDb = k ∨ stream begins with a SELECT` alone. -/
+theorem db_routing_partial (scfg : Cfg) (pcfg : PCfg) (htdb : pcfg.targetDB ≠ -1) (hk : SelectNeutral pcfg)
+    (startDb base : Int) (cmds : List SrcCmd) (hn : Normalized cmds)
+    (hvalid : (parseFull pcfg startDb base cmds).2 = false)
+    (hsafe : routeSafe pcfg (startDb == pcfg.targetDB) false cmds = true) (evs : List Ev)
+    (hrecv : received evs = parse pcfg startDb base cmds) (hwf : WF (received evs))
+    (hpl : ∀ it ∈ nonMarkers (received evs), plainItem rc.ckName it = true)
+    (hflush : (run scfg S.init evs).1.cache = []) (s0 : St D) (hq : s0.q = none) (hdb : s0.db = 0) :
+    (replay rc.ckName apply s0 (renderWire rc (run scfg S.init evs).2)).data =
+      (intended pcfg startDb false cmds).foldl (execIn rc.ckName apply) s0.data := by
+  rw [pipeline_core apply rc scfg pcfg startDb base cmds evs hrecv hwf hpl hflush s0 hq hdb]
+  refine route_target apply rc.ckName pcfg htdb hk base cmds hn PState.init
+    (by simpa [parseFull_eq] using hvalid) s0.data startDb startDb (startDb == pcfg.targetDB) hsafe ⟨?_, ?_⟩
+  · intro h; simpa using h
+  · intro _ h; exact absurd h.symm (by simpa [PState.init] using htdb)
+
+/-- with the repair of D8 (`fixes/C03-targetdb-select.patch`) the side condition reduces to what a master
+guarantees: the stream begins with a SELECT, or the run was resumed in `target.db` -/
+theorem db_routing_fixed (scfg : Cfg) (pcfg : PCfg) (hfix : pcfg.d8fix = true) (htdb : pcfg.targetDB ≠ -1)
+    (hk : SelectNeutral pcfg) (startDb base : Int) (cmds : List SrcCmd) (hn : Normalized cmds)
+    (hvalid : (parseFull pcfg startDb base cmds).2 = false)
+    (hstart : startDb = pcfg.targetDB ∨ ∃ c cs, cmds = c :: cs ∧ c.cmd = "select") (evs : List Ev)
+    (hrecv : received evs = parse pcfg startDb base cmds) (hwf : WF (received evs))
+    (hpl : ∀ it ∈ nonMarkers (received evs), plainItem rc.ckName it = true)
+    (hflush : (run scfg S.init evs).1.cache = []) (s0 : St D) (hq : s0.q = none) (hdb : s0.db = 0) :
+    (replay rc.ckName apply s0 (renderWire rc (run scfg S.init evs).2)).data =
+      (intended pcfg startDb false cmds).foldl (execIn rc.ckName apply) s0.data := by
+  refine db_routing_partial apply rc scfg pcfg htdb hk startDb base cmds hn hvalid ?_ evs hrecv hwf hpl hflush s0 hq hdb
+  rcases hstart with h | ⟨c, cs, hc, hs⟩
+  · exact routeSafe_fixed pcfg hfix cmds _ false (Or.inl (by simpa using h))
+  · rw [hc]; exact routeSafe_fixed_leading_select pcfg hfix c cs hs _
+
+end
+
+/-- **C03, end to end at the wire.** For every valid source stream, filter configuration, start database, thresholds
+and interleaving of arrivals and ticks that ends flushed: the commands written to the target other than SELECTs and
+the tool's own `multi/hset/exec` are exactly the source commands that survive the filters minus the source's MULTI/EXEC
+markers — each once, in source order, with the key filter's arguments (the source's own when no key filter is
+configured, `args_identical`) and the tag `base + pos`. -/
+theorem end_to_end_exactly_once (scfg : Cfg) (pcfg : PCfg) (hk : SelectNeutral pcfg) (startDb base : Int)
+    (cmds : List SrcCmd) (hn : Normalized cmds) (hvalid : (parseFull pcfg startDb base cmds).2 = false)
+    (evs : List Ev) (hrecv : received evs = parse pcfg startDb base cmds) (hwf : WF (received evs))
+    (hflush : (run scfg S.init evs).1.cache = []) :
+    ((wireData (run scfg S.init evs).2).filter (fun it => !isSel it)).map triple =
+      ((survivors pcfg false cmds).filter (fun c => !(c.cmd == "multi" || c.cmd == "exec"))).map
+        (fun c => (c.cmd, (pcfg.keyFilter c.cmd c.args).1, base + c.pos)) := by
+  have h1 := exactly_once_in_order scfg evs hwf
+  rw [hflush, List.append_nil, hrecv] at h1
+  have h2 := parser_forwards_survivors pcfg hk startDb base cmds hn hvalid
+  rw [h1, List.filter_filter]
+  have hcomm : (parse pcfg startDb base cmds).filter (fun it => (!isSel it) && !marker it) =
+      ((parse pcfg startDb base cmds).filter (fun it => !isSel it)).filter (fun it => !marker it) := by
+    rw [List.filter_filter]; congr 1; funext x; exact Bool.and_comm _ _
+  rw [hcomm]
+  have hmf : ∀ l : List Item, (l.filter (fun it => !marker it)).map triple =
+      (l.map triple).filter (fun t => !(t.1 == "multi" || t.1 == "exec")) := by
+    intro l; rw [List.filter_map]; rfl
+  rw [hmf, h2, List.filter_map]
+  rfl
+
+/-! ### 5b. the hypotheses on the parser's output follow from the source stream -/
+
+/-- a well-formed source stream (no MULTI and no SELECT inside a transaction) yields a well-formed item stream,
+whatever the filters drop: a transaction is forwarded or dropped as a whole, because the database filter can only
+change at a SELECT -/
+theorem parser_output_wf (pcfg : PCfg) (hk : SelectNeutral pcfg) (hm : MarkerNeutral pcfg) (startDb base : Int)
+    (cmds : List SrcCmd) (hn : Normalized cmds) (hvalid : (parseFull pcfg startDb base cmds).2 = false)
+    (hsrc : srcWfFrom false cmds = true) : WF (parse pcfg startDb base cmds) := by
+  have h := ploop_wf pcfg base hk hm cmds hn PState.init (by simpa [parseFull_eq] using hvalid) false hsrc
+  simp only [Bool.false_and] at h
+  unfold WF
+  rw [parse, parseFull_eq]
+  unfold startItems
+  split
+  · simp only [List.cons_append, List.nil_append, wfFrom_cons, okIn, nextTx]
+    simpa using h
+  · simpa using h
+
+/-- … and every non-marker item is read by the target as SELECT, PING or a data command, unless the source itself
+writes the checkpoint hash -/
+theorem parser_output_plain (ck : Bytes) (pcfg : PCfg) (hk : SelectNeutral pcfg) (startDb base : Int)
+    (cmds : List SrcCmd) (hn : Normalized cmds) (hvalid : (parseFull pcfg startDb base cmds).2 = false)
+    (hnock : ∀ c ∈ survivors pcfg false cmds, ∀ f v,
+      classify ck (c.cmd, (pcfg.keyFilter c.cmd c.args).1) ≠ .ckpt f v) :
+    ∀ it ∈ nonMarkers (parse pcfg startDb base cmds), plainItem ck it = true :=
+  parse_plain ck pcfg hk startDb base cmds hn hvalid hnock
+
+/-- **C03 from hypotheses on the source stream only** (no `target.db`): for every valid, well-formed source stream
+that does not itself write the checkpoint hash, every filter configuration, start database, base offset, resume
+on/off, thresholds and every interleaving of arrivals and ticks that ends flushed (by `idle_flush_complete`: no later
+than the first tick on an empty queue), the target has executed exactly the surviving data commands — each once, in
+source order, with the key filter's arguments, each in the database selected on the source when it was issued. -/
+theorem c03_main {D : Type} (apply : Int → Cmd → D → D) (rc : RenderCfg)
+    (scfg : Cfg) (pcfg : PCfg) (htdb : pcfg.targetDB = -1) (hk : SelectNeutral pcfg) (hm : MarkerNeutral pcfg)
+    (startDb base : Int) (cmds : List SrcCmd) (hn : Normalized cmds)
+    (hvalid : (parseFull pcfg startDb base cmds).2 = false) (hsrc : srcWfFrom false cmds = true)
+    (hnock : ∀ c ∈ survivors pcfg false cmds, ∀ f v,
+      classify rc.ckName (c.cmd, (pcfg.keyFilter c.cmd c.args).1) ≠ .ckpt f v)
+    (evs : List Ev) (hrecv : received evs = parse pcfg startDb base cmds)
+    (hflush : (run scfg S.init evs).1.cache = []) (s0 : St D) (hq : s0.q = none) (hdb : s0.db = 0) :
+    (replay rc.ckName apply s0 (renderWire rc (run scfg S.init evs).2)).data =
+      (intended pcfg startDb false cmds).foldl (execIn rc.ckName apply) s0.data := by
+  have hwf : WF (received evs) := by
+    rw [hrecv]; exact parser_output_wf pcfg hk hm startDb base cmds hn hvalid hsrc
+  have hpl : ∀ it ∈ nonMarkers (received evs), plainItem rc.ckName it = true := by
+    rw [hrecv]; exact parser_output_plain rc.ckName pcfg hk startDb base cmds hn hvalid hnock
+  exact db_routing apply rc scfg pcfg htdb hk startDb base cmds hn hvalid evs hrecv hwf hpl hflush s0 hq hdb
+
+private def demoCfg : PCfg :=
+  { targetDB := -1, filterDB := fun n => n == 5, filterCmd := fun c => c == "opinfo",
+    keyFilter := fun _ a => (a, false), d8fix := false }
+
+private def demoStream : List SrcCmd :=
+  [{ cmd := "select", args := [[49]], pos := 23 }, { cmd := "set", args := [[107], [118]], pos := 54 },
+   { cmd := "multi", args := [], pos := 69 }, { cmd := "incr", args := [[107]], pos := 91 },
+   { cmd := "exec", args := [], pos := 105 }, { cmd := "select", args := [[53]], pos := 128 },
+   { cmd := "set", args := [[120], [121]], pos := 159 }, { cmd := "ping", args := [], pos := 173 },
+   { cmd := "select", args := [[50]], pos := 196 }, { cmd := "opinfo", args := [[120]], pos := 220 },
+   { cmd := "ping", args := [], pos := 234 }]
+
+/-- non-vacuity of the hypotheses of `c03_main`: two selected databases, a filtered one, a transaction, a filtered
+command, pings; five commands survive (two of them the MULTI/EXEC markers) -/
+example : SelectNeutral demoCfg ∧ MarkerNeutral demoCfg ∧ Normalized demoStream ∧
+    (parseFull demoCfg 0 1000 demoStream).2 = false ∧ srcWfFrom false demoStream = true ∧
+    (intended demoCfg 0 false demoStream).map (·.1) = [1, 1, 2] ∧
+    (survivors demoCfg false demoStream).length = 5 :=
+  ⟨fun _ => rfl, ⟨rfl, rfl, fun _ => rfl, fun _ => rfl⟩, by unfold Normalized; decide, by decide, by decide,
+    by decide, by decide⟩
+
+/-! ### 6. deviation D8 on the pinned tree -/
+
+private def d8cfg (fixed : Bool) : PCfg :=
+  { targetDB := 1, filterDB := fun _ => false, filterCmd := fun _ => false,
+    keyFilter := fun _ a => (a, false), d8fix := fixed }
+
+private def d8stream : List SrcCmd :=
+  [{ cmd := "select", args := [[49]], pos := 23 }, { cmd := "set", args := [[107], [118]], pos := 54 }]
+
+private def d8rc : RenderCfg := { ckName := Generated.SyncConsts.checkpointKeyBytes, source := [115], runId := [114] }
+
+/-- the dataset (log instance) after the canonical run of the pipeline on `d8stream` -/
+private def d8log (fixed : Bool) : Log :=
+  let items := parse (d8cfg fixed) 0 0 d8stream
+  (replay d8rc.ckName logApply Drive.C03.st0
+    (renderWire d8rc (run ⟨false, 10, 1000⟩ S.init (items.map Ev.recv ++ [.tick true])).2)).data
+
+/-- **D8.** `target.db = 1`, the source stream is `select 1; set k v`: the pinned parser forwards `set` without any
+SELECT, so it runs in database 0 although it is intended for database 1 — `routeSafe` is exactly what fails; with
+the repair a `SELECT 1` is injected and the command runs in database 1. -/
+theorem counterexample_targetdb_equal :
+    routeSafe (d8cfg false) false false d8stream = false ∧
+    (parse (d8cfg false) 0 0 d8stream).map (·.cmd) = ["set"] ∧
+    d8log false = [(0, ("set", [[107], [118]]))] ∧
+    intended (d8cfg false) 0 false d8stream = [(1, ("set", [[107], [118]]))] ∧
+    (parse (d8cfg true) 0 0 d8stream).map (·.cmd) = ["SELECT", "set"] ∧
+    d8log true = [(1, ("set", [[107], [118]]))] := by
+  decide
+
+/-! ### 7. the verdict of the trace check is sound -/
+
+/-- A recorded trace accepted by the driver (`Drive.C03.accepts`) is a run of the automaton: there is an event
+sequence receiving exactly these items, producing exactly the recorded groups and ending with an empty cache —
+so every theorem above applies to it. -/
+theorem accepts_sound (cfg : Cfg) (rc : RenderCfg) (items : List Item) (tr : List (List Cmd))
+    (h : Drive.C03.accepts cfg rc items tr = true) :
+    ∃ evs, received evs = items ∧ Drive.C03.renderGroups rc (runG cfg S.init evs).2 = tr ∧
+      (runG cfg S.init evs).1.cache = [] := by
+  unfold Drive.C03.accepts at h
+  simp only [Bool.and_eq_true, beq_iff_eq, List.isEmpty_iff] at h
+  exact ⟨_, h.1.1, h.1.2, h.2⟩
+
 end RSVerif.Properties.C03
